@@ -14,7 +14,7 @@
 //! `flags` = `R`/`r` (RootDir component or not) + `C`/`c` (leading CurDir component or not);
 //! `comps` = the Normal/ParentDir components, comma-joined.
 //!
-//! `ld` runs the REAL `path_loader` over a scratch tree (`/verif/.build/c17/tree`) whose every
+//! `ld` runs the REAL `path_loader` over a scratch tree (`$TMPDIR/mjc17-<id>/tree`, no dot segment) whose every
 //! file carries a marker `<<MJ17 K path>>` with K = `B` (beneath the base) or `C` (canary outside
 //! the base) and its own canonical path (`~xx`-encoded).  `<r>` is `nf` (template not found),
 //! `e:<ErrorKind>`, `panic:<msg>` or `f:<markers seen in the source / the rendered output>`.
@@ -24,6 +24,7 @@
 //! usage: c17 gen <quick|thorough> [k n]   — all streams; only names with index % n == k
 //!        c17 one <case fields…>           — one case (replay)
 //!        c17 bases                        — build the tree, print the header lines
+//!        c17 trace <quick|thorough>       — the syscall-oracle driver (run under strace, see below)
 use minijinja::verif_hooks::safe_join;
 use minijinja::{context, path_loader, Environment, ErrorKind};
 use mjh::*;
@@ -225,11 +226,19 @@ struct Tree {
     canaries: Vec<PathBuf>,
 }
 
+/// The scratch tree lives at a path WITHOUT any dot segment (so not under `.build`): absolute
+/// template names that spell a canary's path must get past `safe_join`'s hidden-segment rule,
+/// otherwise they test nothing.  One directory per copy of the harness (the mutant test bed has
+/// its own), removed by the check when it is done.
 fn tree_root() -> PathBuf {
-    PathBuf::from(
-        std::env::var("VERIF_C17_DIR")
-            .unwrap_or_else(|_| concat!(env!("CARGO_MANIFEST_DIR"), "/../.build/c17/tree").into()),
-    )
+    if let Ok(d) = std::env::var("VERIF_C17_DIR") {
+        return PathBuf::from(d);
+    }
+    let mut h: u32 = 0x811c9dc5;
+    for b in env!("CARGO_MANIFEST_DIR").bytes() {
+        h = (h ^ b as u32).wrapping_mul(0x01000193);
+    }
+    std::env::temp_dir().join(format!("mjc17-{:08x}", h)).join("tree")
 }
 
 fn build_tree() -> Tree {
@@ -237,6 +246,10 @@ fn build_tree() -> Tree {
     let _ = fs::remove_dir_all(&root);
     fs::create_dir_all(&root).unwrap();
     let root = fs::canonicalize(&root).unwrap();
+    assert!(
+        root.components().all(|c| !c.as_os_str().as_bytes().starts_with(b".")),
+        "the scratch tree must not sit below a hidden directory: {root:?}"
+    );
     let mut canaries = vec![];
     let mut chain = vec![root.clone()];
     let mut dir = root.clone();
@@ -872,6 +885,67 @@ fn main() {
                     writeln!(out, "push {} {}\t{}", pct(p.as_bytes()), pct(s.as_bytes()), run_push(p.as_bytes(), s.as_bytes()))
                         .unwrap();
                     writeln!(out, "comps {}\t{}", pct(p.as_bytes()), describe(Path::new(&p))).unwrap();
+                }
+            }
+        }
+        Some("trace") => {
+            // Run under `strace -f -xx -e trace=file`: every request is bracketed by two probes of
+            // sentinel paths (`/MJ17-B/<i>`, `/MJ17-E/<i>`), so the file-system calls the loader
+            // makes for request i can be read off the trace.  stdout: `tr <variant> <name>\t<i> <hook path>`.
+            let thorough = args.get(2).map(|s| s == "thorough").unwrap_or(false);
+            let mut rng = Rng::new(seed_from_env());
+            let t = build_tree();
+            let vs = variants(&t);
+            writeln!(out, "#tree {}", pct(t.root.as_os_str().as_bytes())).unwrap();
+            for (vn, b) in &vs {
+                writeln!(out, "#base {} {}", vn, pct(b.as_os_str().as_bytes())).unwrap();
+            }
+            let alpha = alphabet();
+            let mut names: Vec<String> = targeted(&t);
+            names.extend(lc_names(&t.root.join("lc"), &t.root));
+            for len in 1..=(if thorough { 3 } else { 2 }) {
+                let total = alpha.len().pow(len as u32);
+                for code in 0..total {
+                    let mut c = code;
+                    let mut segs = vec![""; len];
+                    for j in (0..len).rev() {
+                        segs[j] = alpha[c % alpha.len()].as_str();
+                        c /= alpha.len();
+                    }
+                    names.push(segs.join("/"));
+                }
+            }
+            for _ in 0..(if thorough { 5000 } else { 500 }) {
+                names.push(noise_name(&mut rng));
+            }
+            let mut seen = std::collections::BTreeSet::new();
+            names.retain(|n| seen.insert(n.clone()));
+            // the loader closure itself over the absolute spelling, `{% include name %}` over the relative one
+            let direct = path_loader(&vs[0].1);
+            let env = make_env(&vs[2].1, "include");
+            out.flush().unwrap();
+            for (i, name) in names.iter().enumerate() {
+                for (vi, vn) in [(0usize, "abs"), (2usize, "rel")] {
+                    let idx = i * 2 + (vi / 2);
+                    let hook = match guarded(|| safe_join(&vs[vi].1, name)) {
+                        Ok(Some(p)) => format!("+{}", pct(p.as_os_str().as_bytes())),
+                        _ => "-".into(),
+                    };
+                    let _ = fs::metadata(format!("/MJ17-B/{idx}"));
+                    let r = guarded(|| {
+                        if vi == 0 {
+                            match direct(name) {
+                                Ok(Some(text)) => classify_text(&text, false),
+                                Ok(None) => "nf".into(),
+                                Err(e) => classify_err(&e),
+                            }
+                        } else {
+                            run_form(&env, "include", "{% include name %}", name)
+                        }
+                    });
+                    let _ = fs::metadata(format!("/MJ17-E/{idx}"));
+                    let r = r.unwrap_or_else(|m| format!("panic:{}", pct(m.as_bytes())));
+                    writeln!(out, "tr {} {}\t{} {} {}", vn, pct(name.as_bytes()), idx, hook, r).unwrap();
                 }
             }
         }
